@@ -89,26 +89,36 @@ def run(ctx):
         eps = 1e-9 * (1 + g['power'])
         if not (-eps <= a <= b + eps and b <= f + eps and f <= g['power'] + eps):
             ctx.violation({'kind': 'nested-windows-not-monotone', 'os': g['os']}, {'w1': a, 'w2': b, 'full': f, 'input_power': g['power']}, case=None)
-    # normalize_power: power p, images to total p
+    # normalize_power: power p, images to total p - for float, integer and boolean amplitudes alike
     nnorm = 0
     for gi, g in enumerate(geoms[: (120 if q else 1000)]):
         p = rng.choice((1.0, 0.5, 3.25, 100.0, 1e-3))
-        a = lentil.normalize_power(g['amp'].astype(float), p)
+        kind = rng.choice(('float', 'int', 'uint8', 'bool'))
+        raw = {'float': g['amp'].astype(float), 'int': g['amp'].astype(int), 'uint8': (g['amp'] * 9).astype(np.uint8),
+               'bool': g['amp'] > 0}[kind]
         nnorm += 1
-        if abs((np.abs(a) ** 2).sum() - p) > 1e-12 * p:
-            ctx.violation({'kind': 'normalize_power'}, {'target': p, 'power': float((np.abs(a) ** 2).sum())}, case=None)
-        pl = lentil.Pupil(amplitude=a, opd=g['opd'] * float(g['lam']) / g['N'], pixelscale=(float(g['dx'][0]), float(g['dx'][1])),
-                          focal_length=float(g['z']))
-        w = lentil.Wavefront(float(g['lam'])) * pl
-        full = (g['Kr'] // g['os'], g['Kc'] // g['os'])
-        for fn in ('dft', 'fft'):
-            if fn == 'dft':
-                o = lentil.propagate_dft(w, pixelscale=(float(g['du'][0]), float(g['du'][1])), shape=full, oversample=g['os'])
-            else:
-                o = lentil.propagate_fft(w, pixelscale=(float(g['du'][0]), float(g['du'][1])), shape=full, oversample=g['os'])
-            t = float(o.intensity.sum())
-            if abs(t - p) > 1e-9 * p:
-                ctx.violation({'kind': 'normalized-amplitude-images-to-p', 'fn': fn, 'os': g['os']}, {'target': p, 'total': t, 'K': [g['Kr'], g['Kc']]}, case=None)
+        try:
+            a = lentil.normalize_power(raw, p)
+            if not abs((np.abs(a) ** 2).sum() - p) <= 1e-12 * p:
+                ctx.violation({'kind': 'normalize_power', 'dtype': kind}, {'target': p, 'power': float((np.abs(a) ** 2).sum())}, case=None)
+                continue
+            pl = lentil.Pupil(amplitude=a, opd=g['opd'] * float(g['lam']) / g['N'], pixelscale=(float(g['dx'][0]), float(g['dx'][1])),
+                              focal_length=float(g['z']))
+            w = lentil.Wavefront(float(g['lam'])) * pl
+            full = (g['Kr'] // g['os'], g['Kc'] // g['os'])
+            for fn in ('dft', 'fft', 'fft-large-scratch'):
+                if fn == 'dft':
+                    o = lentil.propagate_dft(w, pixelscale=(float(g['du'][0]), float(g['du'][1])), shape=full, oversample=g['os'])
+                elif fn == 'fft':
+                    o = lentil.propagate_fft(w, pixelscale=(float(g['du'][0]), float(g['du'][1])), shape=full, oversample=g['os'])
+                else:
+                    scr = np.full((3 * g['Kr'] + 2, 2 * g['Kc'] + 5), 7.0 - 2.0j)
+                    o = lentil.propagate_fft(w, pixelscale=(float(g['du'][0]), float(g['du'][1])), shape=full, oversample=g['os'], scratch=scr)
+                t = float(o.intensity.sum())
+                if abs(t - p) > 1e-9 * p:
+                    ctx.violation({'kind': 'normalized-amplitude-images-to-p', 'fn': fn, 'os': g['os']}, {'target': p, 'total': t, 'K': [g['Kr'], g['Kc']]}, case=None)
+        except Exception as ex:
+            ctx.violation({'kind': 'normalize-section-' + type(ex).__name__, 'dtype': kind}, {'error': repr(ex)[:300], 'K': [g['Kr'], g['Kc']]}, case=None)
     ctx.traces += len(cases)
     ctx.extra.update({'geometries': len(geoms), 'parseval_theorem_cases': sum(1 for c in cases if c['thm'] == 'energy'),
                       'normalize_power_cases': nnorm})
